@@ -123,7 +123,7 @@ class Generator(CodeGenerator):
                     node=extension,
                 )
 
-            size = encoding[-1].bitstart + encoding[-1].bitlength
+            size = max((p.bitstart + p.bitlength for p in encoding), default=0)
             if size > 64:
                 return error(
                     f"Impl {extension.name} is way too big at {size} bits",
